@@ -155,6 +155,8 @@ func (r *reporter) c04Case(c *MatCase) {
 			r.c04BackSubstitution(c, ti)
 		}
 		r.c04Determinant(c, ti)
+		r.c04History(c, ti)
+		r.c04Windows(c, ti)
 	}
 }
 
